@@ -24,7 +24,7 @@ RULE = (
     "even when pictures are fields); per path of encoder->serialiser->decoder z3 proves the decoded picture numbers; verdict, picture "
     "count, video parameters and coding mode are compared"
 )
-BOUNDS = {"quick": "14 configurations x {explicit, first-explicit-then-AUTO} numbering, 2-3 pictures", "thorough": "26 configurations, 2-4 pictures"}
+BOUNDS = {"quick": "16 configurations x {explicit, first-explicit-then-AUTO} numbering, 2-3 pictures", "thorough": "28 configurations, 2-4 pictures"}
 OUTSIDE = "configurations outside the catalogue; picture content is concrete here (see C04, C09, C14)"
 ASSUMPTIONS = ["when pictures are fields the first picture number is even (documented precondition of the encoder API)"]
 STUBS = ["SymFile", "bytearray/bitarray stand-ins"]
@@ -53,6 +53,8 @@ def _configs(tier):
         dict(name="hq-legall-d2", wavelet_index=W.le_gall_5_3, wavelet_index_ho=W.le_gall_5_3, dwt_depth=2, lossless=True, picture_bytes=None),
         dict(name="hq-custom-qm", quantization_matrix={0: {"LL": 2}, 1: {"HL": 1, "LH": 1, "HH": 3}}),
         dict(name="hq-10bit", video_parameters=dict(luma_offset=64, luma_excursion=876, color_diff_offset=512, color_diff_excursion=896), lossless=True, picture_bytes=None),
+        dict(name="hq-hlg-hdtv", video_parameters=dict(transfer_function_index=3)),
+        dict(name="ld-pq-uhd-primaries", profile=LD, picture_bytes=20, video_parameters=dict(transfer_function_index=4, color_primaries_index=3)),
         dict(name="ld-fields-frag", profile=LD, picture_bytes=24, fragment_slice_count=1, picture_coding_mode=P.pictures_are_fields),
     ]
     if tier == "quick":
